@@ -395,6 +395,17 @@ func (c *Check) helperCallSites(prefix string, pff *Func, u *feeUnits) {
 				}
 				c.req(ok, prefix+".state", unitConstruct(f, "calls-pause-for-funds"), ev.Pos,
 					"the helper that stores State=PAUSED ∧ BatchState=COMPLETED is called only on the failed-credit edge of the new-batch handler (no request of the batch can be pending)")
+				// the context it pauses is the one the handler loaded: no batch has been opened on it (a context paused
+				// with its counter already advanced loses a batch it never issued)
+				for _, a := range ev.CI.args {
+					if namedStruct(a.Typ) != "RequestContext" && a.Op != "with" {
+						continue
+					}
+					wf := writtenFields(stripAddr(a))
+					_, adv := wf["BatchCounter"]
+					c.req(!adv, prefix+".state", unitConstruct(f, "pauses-unadvanced-context"), ev.Pos,
+						"the context handed to the pause-for-funds helper has not been advanced to the next batch")
+				}
 			}
 		}
 	}
